@@ -221,6 +221,10 @@ impl<'tcx> Cx<'tcx> {
                 continue;
             }
             bodies.push(self.dump_body(ldid, kind));
+            let proms = tcx.promoted_mir(did);
+            for (pi, pb) in proms.iter_enumerated() {
+                bodies.push(self.dump_promoted(ldid, pi.as_usize(), pb));
+            }
         }
         root.set("bodies", J::Arr(bodies));
 
@@ -471,6 +475,25 @@ impl<'tcx> Cx<'tcx> {
 
     // ------------------------------------------------------------------ bodies
 
+    fn dump_promoted(&mut self, ldid: LocalDefId, idx: usize, body: &Body<'tcx>) -> J {
+        let tcx = self.tcx;
+        let did = ldid.to_def_id();
+        let env = TypingEnv::post_analysis(tcx, did);
+        let mut o = J::obj();
+        o.set("id", s(format!("{}::promoted[{}]", self.path(did), idx)));
+        o.set("kind", s("Promoted"));
+        o.set("name", s("{promoted}"));
+        let sp = tcx.def_span(did);
+        let (f, l) = self.span_str(sp);
+        o.set("file", s(f));
+        o.set("line", n(l));
+        o.set("from_expansion", J::Bool(sp.from_expansion()));
+        o.set("root", s(self.path(did)));
+        o.set("arg_count", n(0));
+        self.dump_locals_and_blocks(&mut o, body, env);
+        o
+    }
+
     fn dump_body(&mut self, ldid: LocalDefId, kind: DefKind) -> J {
         let tcx = self.tcx;
         let did = ldid.to_def_id();
@@ -519,6 +542,11 @@ impl<'tcx> Cx<'tcx> {
             o.set("impl_derived", J::Bool(tcx.is_automatically_derived(im)));
         }
         o.set("arg_count", n(body.arg_count));
+        self.dump_locals_and_blocks(&mut o, body, env);
+        o
+    }
+
+    fn dump_locals_and_blocks(&mut self, o: &mut J, body: &Body<'tcx>, env: TypingEnv<'tcx>) {
         // locals
         let mut names: HashMap<usize, String> = HashMap::new();
         for vdi in body.var_debug_info.iter() {
@@ -615,7 +643,6 @@ impl<'tcx> Cx<'tcx> {
             blocks.push(bo);
         }
         o.set("blocks", J::Arr(blocks));
-        o
     }
 
     fn field_name(&self, base_ty: mir::PlaceTy<'tcx>, f: rustc_abi::FieldIdx) -> (Option<String>, Option<String>) {
@@ -758,6 +785,9 @@ impl<'tcx> Cx<'tcx> {
                         match c.const_ {
                             mir::Const::Unevaluated(uv, _) => {
                                 o.set("uneval", s(self.path(uv.def)));
+                                if let Some(p) = uv.promoted {
+                                    o.set("promoted", n(p.as_usize()));
+                                }
                                 let mut a = Vec::new();
                                 for ga in uv.args.iter() {
                                     if let GenericArgKind::Type(t2) = ga.kind() {
